@@ -253,6 +253,16 @@ def cond_check(kind, case, rec):
     rec.close("condensed: no forces in the undeformed body", float(np.abs(r0vec).max()) / float(np.abs(K0).max()), 1e-12)
     s1 = fem.SolidBodyNearlyIncompressible(um, f1, bulk=bulk)
     f2 = fem.FieldsMixed(region, n=3, planestrain=ps, axisymmetric=axi)
+    if axi and case["seed"] % 2 == 1:
+        # a second analysis on a radially moved mesh of the same topology that takes over the dual (p, J) field objects
+        # of an earlier one (already used in an assembly there) together with a new displacement field
+        far = mesh.copy()
+        far.update(points=np.array(mesh.points) + np.array([0.0, 0.9]))
+        rfar = type(region)(far)
+        prev = fem.FieldsMixed(rfar, n=3, axisymmetric=True)
+        fem.SolidBody(fem.NearlyIncompressible(um, bulk=bulk), prev).assemble.vector(prev)
+        f2 = fem.FieldContainer([fem.FieldAxisymmetric(region, dim=2), prev[1], prev[2]])
+        rec.label("dual-fields-taken-over-from-another-analysis")
     s2 = fem.SolidBody(fem.NearlyIncompressible(um, bulk=bulk), f2)
     def solve(solid, field, steps):
         res = None
